@@ -560,6 +560,33 @@ def genSlice (rng : Rng) (len : Nat) : Rng × Array String :=
   let s := s.drain
   (s.rng, s.lines)
 
+/-- slices of a graph beyond the group limit: 14 or 15 groups of two alive, then a component of fresh vertices bound to
+    each other (with no group slot free they stay ungrouped, edges and all), sliced from each of its vertices. The calls
+    beyond the limit are outside the quantifier of the history monitors; model and implementation are still compared. -/
+def genSliceBeyond (rng : Rng) (len : Nat) : Rng × Array String :=
+  let (rng, n) := rng.pick [2, 4, 16]
+  let (rng, groups) := rng.pick [14, 14, 15, 13]
+  let (rng, k) := rng.below 4
+  let k := k + 2
+  let cap := 2 * groups + k + 3
+  let s := GenSt.start rng n cap
+  let s := s.groupsOfTwo (min groups 14)
+  let s := if groups > 14 then [Op.add 28, .add 29, .bind 28 29 (.alpha 0)].foldl (fun (s : GenSt) op => s.emit op) s else s
+  let base := 2 * groups
+  let ids := (List.range k).map (· + base)
+  let s := ids.foldl (fun (s : GenSt) v => s.emit (.add v)) s
+  let s := (List.range (len / 3 + k)).foldl (fun (s : GenSt) _ =>
+    let (rng, v1) := s.rng.pick ids
+    let (rng, v2) := rng.pick ids
+    let (rng, l) := rng.pick (s.labels.take n)
+    let s := { s with rng := rng }
+    if v1 = v2 ∨ ((s.r.edg v1).length ≥ n ∧ ¬ (s.r.edg v1).any (·.1 = l)) then s else s.emit (.bind v1 v2 l)) s
+  let s := { s with lines := s.lines.push "observe g0" }
+  let s := (ids.zip (List.range k)).foldl (fun (s : GenSt) (v, i) =>
+    let h' := s!"g{i + 1}"
+    { s with lines := s.lines ++ #[s!"slice g0 {v} {h'} -", s!"observe {h'}", s!"put {h'} {v} x0102", s!"data {h'} {v}", s!"keys {h'}"] }) s
+  (s.rng, s.lines ++ #["observe g0", "snap g0"])
+
 /-! ### merge (C11, C12) -/
 
 structure TNode where
@@ -655,6 +682,11 @@ def genMerge (rng : Rng) (broken : Bool) : Rng × Array String :=
     if c = 0 ∧ nd.id ∈ s.r.ids ∧ (R.data s.r nd.id).ids.length = s.r.ids.length then s.emit (.data nd.id) else s) s0
   -- right graph g1
   let s1 : GenSt := { s0 with h := "g1", r := Sodg.R.empty, cap := capR, lines := s0.lines.push s!"new g1 {n} {capR}" }
+  -- the allocator of the right graph has often moved (its position is state `merge` can see): sometimes exactly as many
+  -- `next_id()` calls as the tree has vertices
+  let (rngA, jr) := s1.rng.pick [0, 0, 0, tr.length, tr.length, 1, 2, kr + 2]
+  let s1 := { s1 with rng := rngA }
+  let s1 := (List.range jr).foldl (fun (s : GenSt) _ => match s.tryOps [.nextId] with | some x => x | none => s) s1
   let s1 := match s1.tryOps (treeOps tr) with | some x => x | none => s1
   let freeR := (List.range capR).filter (· ∉ idsR)
   let s1 := if broken then
@@ -686,6 +718,60 @@ def genMerge (rng : Rng) (broken : Bool) : Rng × Array String :=
     | some (_, i) => (match s.tryOps [.nextId, .add i] with | some x => x | none => s)
     | none => s) s0'
   (s0'.rng, s0'.lines)
+
+/-- non-tree merges (C07, `join`): two small random digraphs over a small label pool are merged — `join` fires when a
+    vertex of the right graph is reached under two labels that lead to different vertices of the left graph; it removes
+    a slot of the left graph's vertex store. Then: every slot of the left graph is touched (the removed one panics),
+    random calls, the left graph merged into the right one (a right graph with removed slots), probes, and a third merge.
+    The reference is not followed through the merges: the calls after them are random, valid or not. -/
+def genJoin (rng : Rng) (len : Nat) : Rng × Array String :=
+  let (rng, n) := rng.pick [2, 3, 4, 16]
+  let (rng, np) := rng.pick [2, 2, 3]
+  let pool : List Label := ([Lb.Label.alpha 0, .alpha 1, .greek 'ρ', .str (Lb.pad8 "foo".toList)].take (min n np))
+  let (rng, capL) := rng.pick [6, 8, 10, 12, 16, 24]
+  let (rng, capR) := rng.pick [3, 4, 6, 8, 12]
+  let prof : Prof := { wAdd := 12, wAddPresent := 1, wBind := 34, wPut := 8, wPutAgain := 1, wData := 2, wDataUnread := 2,
+                       wKid := 1, wKids := 1, wNext := 3, wKeys := 0 }
+  let wild : Prof := { prof with invalidPct := 100, wildPct := 2, wData := 8, wDataUnread := 6, wKid := 6, wKids := 6 }
+  let (rng, kl) := rng.below (len + 6)
+  let (rng, kr) := rng.below (len / 2 + 5)
+  -- half of the histories start from the situation in which `join` is certain: the left root has two kids under two
+  -- labels, the right root has one kid under both
+  let (rng, scripted) := rng.below 2
+  let (rng, x) := rng.below (capL - 2)
+  let (rng, y) := rng.below (capR - 1)
+  let la := pool.headD (.alpha 0)
+  let lb := pool.getD 1 (.alpha 1)
+  let s0 : GenSt := { GenSt.start rng n capL with labels := pool }
+  let s0 := if scripted = 0 then
+      (match s0.tryOps [.add x, .add (x + 1), .add (x + 2), .bind x (x + 1) la, .bind x (x + 2) lb] with | some t => t | none => s0)
+    else s0
+  let s0 := (List.range (kl + 4)).foldl (fun s _ => s.stepRandom prof) s0
+  let s1 : GenSt := { s0 with h := "g1", r := Sodg.R.empty, cap := capR, lines := s0.lines.push s!"new g1 {n} {capR}" }
+  let s1 := if scripted = 0 then
+      (match s1.tryOps [.add y, .add (y + 1), .bind y (y + 1) la, .bind y (y + 1) lb] with | some t => t | none => s1)
+    else s1
+  let s1 := (List.range (kr + 3)).foldl (fun s _ => s.stepRandom prof) s1
+  let pickV (rng : Rng) (r : R) (cap : Nat) : Rng × Nat := if r.ids = [] then rng.below cap else rng.pick r.ids
+  let (rng, l1) := pickV s1.rng s0.r capL
+  let (rng, r1) := pickV rng s1.r capR
+  let (l1, r1) := if scripted = 0 then (x, y) else (l1, r1)
+  let lines := s1.lines ++ #["observe g0", "observe g1", s!"merge g0 g1 {l1} {r1}", "observe g0", "snap g0"]
+  -- every slot of the left graph, removed ones included
+  let lines := (List.range capL).foldl (fun (ls : Array String) v => (ls.push s!"kids g0 {v}").push s!"kid g0 {v} A:0") lines
+  let s0 : GenSt := { s0 with rng := rng, lines := lines }
+  let s0 := (List.range (len / 2 + 4)).foldl (fun s _ => s.stepRandom wild) s0
+  let (rng, l2) := pickV s0.rng s1.r capR
+  let (rng, r2) := pickV rng s0.r capL
+  let lines := s0.lines ++ #["observe g0", s!"merge g1 g0 {l2} {r2}", "observe g1", "snap g1"]
+  let lines := (List.range capR).foldl (fun (ls : Array String) v => (ls.push s!"data g1 {v}").push s!"add g1 {v}") lines
+  let s1 : GenSt := { s1 with rng := rng, lines := lines }
+  let s1 := (List.range (len / 2 + 4)).foldl (fun s _ => s.stepRandom wild) s1
+  let (rng, l3) := pickV s1.rng s0.r capL
+  let (rng, r3) := pickV rng s1.r capR
+  let lines := s1.lines ++ #[s!"merge g0 g1 {l3} {r3}", "observe g0", "snap g0", "nextid g0", "keys g0", "observe g1", "snap g1"]
+  let lines := (List.range capL).foldl (fun (ls : Array String) v => ls.push s!"data g0 {v}") lines
+  (rng, lines ++ #["observe g0", "snap g0"])
 
 /-- render profile: a history, then every text export of the graph and of each present (and one absent) vertex;
     repeated once more after some further calls. Here: every export of the graph held by handle `h` (which has the
@@ -799,10 +885,11 @@ def genProfile (profile : String) (seed : Nat) (count len : Nat) : Array String 
       | "wrap" => genWrap rng i
       | "fork" => genFork rng len
       | "render" => if i % 25 = 7 then genRenderWrap rng (i / 25) else genRender rng len
-      | "slice" => genSlice rng len
+      | "slice" => if i % 8 = 5 then genSliceBeyond rng len else genSlice rng len
       | "merge" => genMerge rng false
       | "mergebroken" => genMerge rng true
       | "mergemix" => genMerge rng (i % 2 = 0)     -- failing merges and merges of trees alternate in one process
+      | "join" => genJoin rng len
       | "ser" => genSer rng len 7
       | "serall" => genSer rng len 1
       | _ => (rng, #[])
